@@ -1,5 +1,187 @@
-use crate::util::{Args, Report};
-pub fn run(_a: &Args, _r: &mut Report) {
-    eprintln!("not implemented yet");
-    std::process::exit(2);
+//! C05 — reference-based CPR decoding (airborne and surface).
+use crate::oracle::{cpr, frames, geo};
+use crate::props::c04::airborne_msg;
+use crate::util::{guarded, msg_class, short_loc, Args, Report, Rng};
+use rs1090::decode::bds::bds06::SurfacePosition;
+use rs1090::decode::cpr::{airborne_position_with_reference, surface_position_with_reference, Position};
+use serde_json::json;
+
+pub fn surface_msg(yz: u32, xz: u32, odd: bool) -> SurfacePosition {
+    let me = frames::me_surface(7, 20, 1, 33, 0, odd as u8, yz, xz);
+    SurfacePosition::try_from(&me[..]).expect("harness: surface ME must parse")
+}
+
+fn decode(surface: bool, yz: u32, xz: u32, odd: bool, rlat: f64, rlon: f64) -> Result<Option<Position>, (String, String)> {
+    if surface {
+        let m = surface_msg(yz, xz, odd);
+        guarded(|| surface_position_with_reference(&m, rlat, rlon))
+    } else {
+        let m = airborne_msg(yz, xz, odd);
+        guarded(|| airborne_position_with_reference(&m, rlat, rlon))
+    }
+}
+
+/// zone sizes (deg) at latitude `lat` for the given format/parity
+fn zones(surface: bool, odd: bool, lat: f64) -> (f64, f64) {
+    let span = if surface { 90.0 } else { 360.0 };
+    let i = odd as i32;
+    let dlat = span / (60.0 - i as f64);
+    let ni = (geo::nl(lat) - i).max(1) as f64;
+    (dlat, span / ni)
+}
+
+fn in_range(r: &mut Report, rng: &mut Rng, surface: bool, st: &mut Stats) {
+    let lat = if rng.chance(0.7) { rng.uni(-1.0, 1.0).asin().to_degrees() } else { rng.uni(-90.0, 90.0) };
+    let lon = rng.uni(-180.0, 180.0);
+    let odd = rng.chance(0.5);
+    let e = cpr::encode(lat, lon, odd as u32, surface);
+    let range_m = if surface { 45.0 } else { 180.0 } * geo::NM;
+    let frac = match rng.below(4) {
+        0 => rng.uni(0.90, 0.95),
+        1 => rng.uni(0.0, 0.01),
+        _ => rng.uni(0.0, 0.95),
+    };
+    let (rlat, rlon) = geo::dest(lat, lon, rng.uni(0.0, 360.0), frac * range_m);
+    // "closer than the unambiguous range" additionally means inside half a zone (x0.95) in each coordinate;
+    // this only ever bites for surface reports poleward of ~89 deg and airborne ones poleward of ~87 deg
+    let (dlat, dlon) = zones(surface, odd, e.rlat);
+    let far = (rlat - lat).abs() > 0.95 * dlat / 2.0 || geo::dlon(rlon, lon).abs() > 0.95 * dlon / 2.0;
+    if far {
+        st.restricted += 1;
+        return;
+    }
+    if geo::dist_to_transition(e.rlat, &st.tr) < 1e-7 {
+        // table-based vs closed-form NL may legitimately disagree within rounding of a transition latitude
+        st.edge_skipped += 1;
+        return;
+    }
+    r.evaluations += 1;
+    let rp = json!({"kind":"in-range","surface":surface,"odd":odd,"truth":[lat,lon],"reference":[rlat,rlon],"cpr":[e.yz,e.xz]});
+    let fam = if surface { "surface" } else { "airborne" };
+    match decode(surface, e.yz, e.xz, odd, rlat, rlon) {
+        Err((loc, msg)) => r.violation(&format!("C05:panic:{}", short_loc(&loc)), format!("{fam} decode panicked: {}", msg_class(&msg)), rp),
+        Ok(None) => r.violation(&format!("C05:in-range-none:{fam}"), format!("{fam} {} report of ({lat},{lon}) with reference ({rlat},{rlon}) {:.1} NM away: no position", if odd {"odd"} else {"even"}, geo::dist_m(lat,lon,rlat,rlon)/geo::NM), rp),
+        Ok(Some(p)) => {
+            let d = geo::dist_m(lat, lon, p.latitude, p.longitude);
+            if d > 10.0 || !(p.latitude >= -90.0 && p.latitude <= 90.0) {
+                r.violation(&format!("C05:in-range-wrong:{fam}"), format!("{fam} {} report of ({lat},{lon}) with reference ({rlat},{rlon}) {:.1} NM away decoded to ({},{}) = {:.1} m off", if odd {"odd"} else {"even"}, geo::dist_m(lat,lon,rlat,rlon)/geo::NM, p.latitude, p.longitude, d), rp);
+            } else {
+                if d > st.max_err {
+                    st.max_err = d;
+                }
+                st.ok[surface as usize][odd as usize] += 1;
+                r.distinct(((e.yz as u64) << 40) ^ ((e.xz as u64) << 20) ^ (rlat.to_bits() >> 20) ^ ((surface as u64) << 63) ^ ((odd as u64) << 62));
+            }
+        }
+    }
+}
+
+#[derive(Default)]
+struct Stats {
+    ok: [[u64; 2]; 2],
+    restricted: u64,
+    max_err: f64,
+    far_none: u64,
+    far_some: u64,
+    edge_skipped: u64,
+    tr: Vec<f64>,
+}
+
+fn far_reference(r: &mut Report, rng: &mut Rng, surface: bool, st: &mut Stats) {
+    let yz = rng.biased(17) as u32;
+    let xz = rng.biased(17) as u32;
+    let odd = rng.chance(0.5);
+    let pick = |rng: &mut Rng, lim: f64| -> f64 {
+        match rng.below(12) {
+            0 => 0.0,
+            1 => -0.0,
+            2 => lim,
+            3 => -lim,
+            4 => f64::MIN_POSITIVE,
+            5 => 5e-324,
+            6 => rng.uni(-1.0, 1.0) * 10f64.powi(rng.range(3, 300) as i32),
+            7 => lim - rng.uni(0.0, 1e-9),
+            8 => (rng.range(-60, 60) as f64) * if surface { 1.5 } else { 6.0 },
+            9 => (rng.range(-59, 59) as f64) * if surface { 90.0 / 59.0 } else { 360.0 / 59.0 },
+            _ => rng.uni(-lim, lim),
+        }
+    };
+    let rlat = pick(rng, 90.0);
+    let rlon = pick(rng, 180.0);
+    r.evaluations += 1;
+    let fam = if surface { "surface" } else { "airborne" };
+    let rp = json!({"kind":"far","surface":surface,"odd":odd,"reference":[rlat,rlon],"cpr":[yz,xz]});
+    match decode(surface, yz, xz, odd, rlat, rlon) {
+        Err((loc, msg)) => r.violation(&format!("C05:panic:{}", short_loc(&loc)), format!("{fam} decode with reference ({rlat},{rlon}) panicked: {}", msg_class(&msg)), rp),
+        Ok(None) => st.far_none += 1,
+        Ok(Some(p)) => {
+            st.far_some += 1;
+            // on an NL transition latitude (within 1e-7 deg) either neighbouring NL value is accepted: take the wider zone
+            let lat_for_zone = if geo::dist_to_transition(p.latitude, &st.tr) < 1e-7 { p.latitude.abs() + 2e-7 } else { p.latitude };
+            let (dlat, dlon) = zones(surface, odd, lat_for_zone);
+            let mut bad = vec![];
+            if !(p.latitude >= -90.0 && p.latitude <= 90.0) {
+                bad.push(format!("latitude {} outside [-90,90]", p.latitude));
+            }
+            if !p.longitude.is_finite() || !p.latitude.is_finite() {
+                bad.push("non-finite coordinate".to_string());
+            }
+            if (p.latitude - rlat).abs() > dlat / 2.0 + 1e-9 {
+                bad.push(format!("latitude {} is more than half a zone ({}) from the reference", p.latitude, dlat / 2.0));
+            }
+            if (p.longitude - rlon).abs() > dlon / 2.0 + 1e-9 {
+                bad.push(format!("longitude {} is more than half a zone ({}) from the reference", p.longitude, dlon / 2.0));
+            }
+            if !bad.is_empty() {
+                r.violation(&format!("C05:far:{fam}"), format!("{fam} cpr=({yz},{xz}) {} with reference ({rlat},{rlon}): {}", if odd {"odd"} else {"even"}, bad.join("; ")), rp);
+            } else {
+                r.distinct(((yz as u64) << 40) ^ ((xz as u64) << 20) ^ rlat.to_bits().rotate_left(7) ^ rlon.to_bits());
+            }
+        }
+    }
+}
+
+pub fn run(a: &Args, r: &mut Report) {
+    r.rule = "in range: true point -> independent encoder (one parity) -> real *_position_with_reference with the reference displaced by a random bearing and <= 0.95 x range (180 NM / 45 NM) -> within 10 m; any reference: arbitrary CPR counts with references incl. +-0, subnormal, 1e3..1e300, zone edges, poles, +-180 -> absent, or within half a zone of the reference and |lat| <= 90. distinct = distinct (cpr, reference) cases with a correct verdict".into();
+    r.assumptions.push("in-range additionally requires the reference to be within 0.95 x half a zone in each coordinate (only active near the poles where a zone is narrower than the nominal range)".into());
+    let mut st = Stats { tr: geo::transitions(), ..Default::default() };
+    let mut rng = Rng::new(a.seed, a.shard, "C05");
+    if let Some(p) = &a.replay {
+        let v: serde_json::Value = serde_json::from_str(&std::fs::read_to_string(p).unwrap()).unwrap();
+        let rp = &v["replay"];
+        let (s, odd) = (rp["surface"].as_bool().unwrap(), rp["odd"].as_bool().unwrap());
+        let res = decode(s, rp["cpr"][0].as_u64().unwrap() as u32, rp["cpr"][1].as_u64().unwrap() as u32, odd, rp["reference"][0].as_f64().unwrap(), rp["reference"][1].as_f64().unwrap());
+        r.evaluations += 1;
+        r.extra.insert("replay_result".into(), json!(format!("{:?}", res)));
+        if let (Ok(Some(p)), Some(t)) = (&res, rp.get("truth")) {
+            let d = geo::dist_m(t[0].as_f64().unwrap(), t[1].as_f64().unwrap(), p.latitude, p.longitude);
+            if d > 10.0 {
+                r.violation("C05:in-range-wrong:replay", format!("{d:.1} m off"), rp.clone());
+            }
+        } else if rp["kind"] == "in-range" {
+            r.violation("C05:in-range-none:replay", format!("{:?}", res), rp.clone());
+        }
+        return;
+    }
+    let n = a.budget(4_000_000, 1_000_000_000);
+    for i in 0..n {
+        let surface = i % 2 == 1;
+        if i % 4 < 3 {
+            in_range(r, &mut rng, surface, &mut st);
+        } else {
+            far_reference(r, &mut rng, surface, &mut st);
+        }
+    }
+    for s in 0..2 {
+        for o in 0..2 {
+            r.class_n(&format!("in-range-ok:{}:{}", if s == 1 { "surface" } else { "airborne" }, if o == 1 { "odd" } else { "even" }), st.ok[s][o]);
+        }
+    }
+    r.class_n("in-range:not-judged(reference beyond 0.95 x half-zone near a pole)", st.restricted);
+    r.class_n("in-range:not-judged(recovered latitude within 1e-7 deg of an NL transition)", st.edge_skipped);
+    r.class_n("any-reference:none", st.far_none);
+    r.class_n("any-reference:some-within-half-zone", st.far_some);
+    r.max("error_m", st.max_err);
+    r.extra.insert("mandatory".into(), json!(["in-range-ok:airborne:even", "in-range-ok:airborne:odd", "in-range-ok:surface:even", "in-range-ok:surface:odd", "any-reference:some-within-half-zone"]));
+    r.sample(json!({"kind": "in-range", "truth": [48.1, 11.5], "reference_offset_nm": 171.0, "format": "airborne"}));
 }
